@@ -317,6 +317,14 @@ def _observe(w):
         out['defaults'] = list(p.defaultProfiles)
     except Exception as e:
         out['defaults'] = _exc(e)
+    # the listing of one profile, for every name of the alphabet (registered or not)
+    one = {}
+    for alias, name in NAME.items():
+        try:
+            one[alias] = list(p.propertiesByProfile(name))
+        except Exception as e:
+            one[alias] = type(e).__name__
+    out['pbp1'] = one
     return out
 
 
@@ -509,6 +517,11 @@ def judge_state(w, obs, clauses, with_contents=True):
         names.append(['profiles', reg.profiles(), obs['profiles']])
     if obs['pbp'] != reg.properties_by_profile():
         names.append(['propertiesByProfile()', reg.properties_by_profile(), obs['pbp']])
+    registered = set(reg.profiles())
+    want_one = {alias: (sorted(DEFBYNAME[name][0]) if name in registered else 'NoSuchProfileException') for alias, name in NAME.items()}
+    if obs.get('pbp1') != want_one:
+        bad = sorted(a for a in want_one if obs.get('pbp1', {}).get(a) != want_one[a])
+        names.append(['propertiesByProfile(name)', {a: want_one[a] for a in bad}, {a: obs.get('pbp1', {}).get(a) for a in bad}])
     want_defaults = list(w.D) if w.D else reg.profiles()
     if obs['defaults'] != want_defaults:
         names.append(['defaultProfiles', want_defaults, obs['defaults']])
